@@ -1,4 +1,5 @@
 import Swat4.Lemmas.LockFencing
+import Swat4.Gen.Facts
 /-!
 # C09 — Concurrent registry writers never lose an update, readers never fail
 
@@ -263,5 +264,16 @@ example :
       s.store.locks.contains svr.addr.key = false ∧ s.log.length = 1 := ⟨rfl, rfl, rfl⟩
 
 end Example
+
+
+/-- the constants the machine is written against are the ones in the source (regenerated `Gen/Facts.lean`): five
+attempts per call (`Writer.start` leaves four after the first), a finite lease on every lock (`SET NX EX`), and the
+key names the canonical dump is parsed by -/
+theorem facts_ok : Facts.lockMaxAttempts = 5 ∧ 0 < Facts.lockLeaseMs ∧
+    Facts.serversKey_itemsKey = "servers:items" ∧ Facts.serversKey_updatesKey = "servers:updated" ∧
+    Facts.serversKey_refreshesKey = "servers:refreshed" ∧ Facts.serversKey_statusKeyFmt = "servers:status:%s" ∧
+    Facts.serversKey_lockKeyFmt = "servers:lock:%s" := by decide
+
+theorem start_attempts (op : WOp) (tok : Nat) : (Writer.start op tok).attemptsLeft + 1 = Facts.lockMaxAttempts := rfl
 
 end Swat4.C09
